@@ -346,7 +346,22 @@ func c09Scenario(r *vf.Run, t *testing.T, id string, rng *rand.Rand) {
 				fs := append(append([]F{}, base...), ins1, F{Name: "content-length", Value: "77"}, ins2)
 				inserted = append(inserted, ins1, ins2)
 				out := rt.Concat(rt.HeaderFrames(sid, enc(fs, choicesFor(fs)), nil, -1, nil, false))
-				out = append(out, data(70, true)...)
+				if rng.Intn(2) == 0 {
+					// the body ends in trailers, which is where the mismatch becomes final; the trailer block inserts a
+					// table entry of its own and has to be decoded whatever becomes of the request
+					ins3 := F{Name: fmt.Sprintf("x-ins-c-%d", oi), Value: "trailer-" + randToken(rng, 8, customNameAlphabet)}
+					out = append(out, data(70, false)...)
+					tb := enc([]F{ins3, {Name: "x-trailer-plain", Value: "1"}}, []hpackref.Choice{incr, lit})
+					var splits []int
+					if rng.Intn(2) == 0 {
+						splits = []int{1 + rng.Intn(len(tb)-1)}
+					}
+					out = append(out, rt.Concat(rt.HeaderFrames(sid, tb, splits, -1, nil, true))...)
+					inserted = append(inserted, ins3)
+					triggers = append(triggers, "hpack.blockAbandonedAfterMalformedField")
+				} else {
+					out = append(out, data(70, true)...)
+				}
 				if inflight {
 					out = append(out, rt.WindowUpdate(sid, 10)...)
 				}
